@@ -82,6 +82,16 @@ impl Hook for TH {
             OpKind::Lock | OpKind::WLock => {
                 st.locks.entry(op.addr).or_default().writer = Some(tid);
             }
+            OpKind::TryLock | OpKind::TryWLock => {
+                if ok {
+                    st.locks.entry(op.addr).or_default().writer = Some(tid);
+                }
+            }
+            OpKind::TryRLock => {
+                if ok {
+                    st.locks.entry(op.addr).or_default().readers.push(tid);
+                }
+            }
             OpKind::Unlock | OpKind::WUnlock => {
                 st.locks.entry(op.addr).or_default().writer = None;
             }
@@ -275,6 +285,9 @@ pub fn kind_name(k: OpKind) -> &'static str {
         OpKind::RUnlock => "RUnlock",
         OpKind::WLock => "WLock",
         OpKind::WUnlock => "WUnlock",
+        OpKind::TryLock => "TryLock",
+        OpKind::TryRLock => "TryRLock",
+        OpKind::TryWLock => "TryWLock",
     }
 }
 
